@@ -148,7 +148,16 @@ def rule_k3(ctx: Ctx) -> None:
         raise AnalysisError("; ".join(sub.undecided))
 
 
+GENERIC_FILES = ['permuta/patterns/meshpatt.py']
+
+
 def variants():
+    from ..selftest import generic_silent
+
+    return _variants() + generic_silent(GENERIC_FILES)
+
+
+def _variants():
     from ..selftest import V, insert_stmt, reformat_only, rename_local, replace_expr, replace_stmt
 
     MP = "permuta/patterns/meshpatt.py"
